@@ -308,4 +308,7 @@ Qed.
 
 (* ---- non-vacuity material ---------------------------------------------------------------------- *)
 Lemma toy_hash_len hl m : length (toy_hash hl m) = hl.
-Proof. unfold toy_hash. apply be_encode_length. Qed.
+Proof.
+  unfold toy_hash. generalize (fold_left toy_step m 7) as a. generalize 0 as j.
+  induction hl as [|k IH]; intros j a; cbn [toy_out length]; [reflexivity|]. now rewrite IH.
+Qed.
